@@ -34,6 +34,8 @@ THEOREMS = [
     # CREATE TABLE column options
     "optFold_nullable", "declared_not_null_catalogued", "primary_key_catalogued_not_null",
     "catalogued_nullable_iff",
+    # table-level PRIMARY KEY (c1, …, cn)
+    "table_key_columns_not_null", "forceNotNull_mem", "forceNotNull_keeps_false", "tableCatalogOf_single",
 ]
 
 # type-changing rewrite rules: the optimised plan (and the result) has another column type than
@@ -79,12 +81,12 @@ DECL_RE = r"\((\w+) (\w+|\(opts[^)]*\))\)"
 
 
 def declared_not_null(n):
-    """What the SQL text declares (model free): PRIMARY KEY anywhere, or the LAST of NULL / NOT NULL
-    is NOT NULL."""
+    """What the SQL text declares (model free): PRIMARY KEY anywhere (inline, or the column is listed
+    in the table-level PRIMARY KEY (…): pseudo option k<n>), or the LAST of NULL / NOT NULL is NOT NULL."""
     if not n.startswith("("):
         return n != "null"
     opts = n[1:-1].split()[1:]
-    if "pk" in opts:
+    if "pk" in opts or any(re.fullmatch(r"k\d+", o) for o in opts):
         return True
     last = [o for o in opts if o in ("null", "notnull")]
     return bool(last) and last[-1] == "notnull"
@@ -109,6 +111,20 @@ def parse_ins(req):
 SQLTY = {"BOOLEAN": "boolean", "SMALLINT": "smallint", "INT": "int", "BIGINT": "bigint", "STRING": "varchar"}
 
 
+def create_cols(txt):
+    """`c0 int not null, …, primary key (c1, c0)` of a decls text."""
+    words = {"null": " null", "notnull": " not null", "unique": " unique", "pk": " primary key"}
+    out, key = [], []
+    for k, (t, n) in enumerate(re.findall(DECL_RE, txt)):
+        os_ = n[1:-1].split()[1:] if n.startswith("(") else []
+        key += [(int(o[1:]), k) for o in os_ if re.fullmatch(r"k\d+", o)]
+        opt = "".join(words.get(o, "") for o in os_) if n.startswith("(") else ("" if n == "null" else words[n])
+        out.append("c%d %s%s" % (k, SQLTY[t], opt))
+    if key:
+        out.append("primary key (%s)" % ", ".join("c%d" % c for _, c in sorted(key)))
+    return ", ".join(out)
+
+
 def render_sql(req):
     """The SQL statements the harness runs for an INSERT scenario (for the replay file)."""
     def val(v):
@@ -124,9 +140,14 @@ def render_sql(req):
     def cols(txt):
         out = []
         words = {"null": " null", "notnull": " not null", "unique": " unique", "pk": " primary key"}
+        key = []
         for k, (t, n) in enumerate(re.findall(DECL_RE, txt)):
-            opt = "".join(words[o] for o in n[1:-1].split()[1:]) if n.startswith("(") else ("" if n == "null" else words[n])
+            os_ = n[1:-1].split()[1:] if n.startswith("(") else []
+            key += [(int(o[1:]), k) for o in os_ if re.fullmatch(r"k\d+", o)]
+            opt = "".join(words.get(o, "") for o in os_) if n.startswith("(") else ("" if n == "null" else words[n])
             out.append("c%d %s%s" % (k, SQLTY[t], opt))
+        if key:
+            out.append("primary key (%s)" % ", ".join("c%d" % c for _, c in sorted(key)))
         return ", ".join(out)
     try:
         kind = req.split(" ")[0][1:]
@@ -229,7 +250,7 @@ def run(ck):
         if i.startswith("harness-error") or m == "bad-request":
             ck.report("machinery:answer", "%s / %s on %s" % (i[:200], m[:200], q[:200]), replay={"request": q}, found_input=False)
             continue
-        if kind in ("type", "ptype", "ddl", "ddlre"):
+        if kind in ("type", "ptype", "ddl", "ddlre", "ddlt", "ddltre"):
             st["model_vs_impl"]["compared"] += 1
             outcomes[kind + ":" + i.split(" ")[0]] += 1
             if i != m:
@@ -238,14 +259,27 @@ def run(ck):
                 # type alone: the SQL oracle below is the search for a failing input
                 what = ("what CREATE TABLE catalogues (bind_create_table) and the model's catalogOf disagree" if kind == "ddl"
                         else "the column's catalogued flags after shutdown + reopen of a disk database are not what CREATE TABLE declared (model: catalogOf)"
-                        if kind == "ddlre" else "typeOf and TypeSchemaAnalysis disagree")
+                        if kind == "ddlre" else "the flags CREATE TABLE catalogues for a table with a table-level PRIMARY KEY (…) and the model's tableCatalogOf disagree"
+                        if kind in ("ddlt", "ddltre") else "typeOf and TypeSchemaAnalysis disagree")
                 # `ddlre`: the declared flags are part of the property (constraints hold over histories
                 # with a reopen), and the request is the failing input
+                # whether the declared flags (part of the property) are broken is decided by the model-free
+                # comparison below; `ddlre`: the request is the failing input
                 ck.report(("corr+prop:%s" if kind == "ddlre" else "corr:%s") % kind, "%s on %s: impl=%s model=%s" % (what, q[:200], i, m),
                           replay={"request": q, "impl": i, "model": m, "stream": "model_vs_impl"}, found_input=(kind == "ddlre"))
             # model-free: the nullability the SQL text declares (NOT NULL = PRIMARY KEY anywhere or the
             # last of NULL / NOT NULL), in the creating session (`ddl`) and
             # after shutdown + reopen of a disk database (`ddlre`)
+            if kind in ("ddlt", "ddltre") and i.startswith("ok "):
+                # every column listed in the table-level key, and every column whose last NULL / NOT NULL
+                # option is NOT NULL, must be catalogued NOT NULL (declaration read from the request text)
+                st["impl_vs_oracle"]["compared"] += 1
+                want = ["n0" if declared_not_null(n) else "n1" for _, n in re.findall(DECL_RE, q)]
+                got = [f[:2] for f in i[3:].split(" ")]
+                if got != want:
+                    st["impl_vs_oracle"]["disagree"] += 1
+                    ck.report("prop:%s:flags" % kind, "the catalogued nullability %s is not the declared one %s on %s" % (got, want, q[:200]),
+                              replay={"request": q, "sql": "create table t(%s)" % create_cols(q[q.index("(decls ") + 7:]), "impl": i, "model": m, "declared": want}, found_input=True)
             mm = re.match(r"\(ddl\w* \w+ (\(opts[^)]*\))\)$", q)
             fm = re.match(r"ok nullable=(\w+) primary=(\w+)$", i)
             if mm and fm:
